@@ -93,9 +93,15 @@ def isIdent : Str → Bool
   | [] => false
   | c :: r => isIdStart c && r.all isIdCont
 
-/-- `_IDENTIFIER_PATTERN.match(name)` with `_IDENTIFIER_PATTERN = '[A-Za-z_][A-Za-z0-9_]*$'`: `$` also matches just before a
-    newline that ends the string -/
+/-- `_IDENTIFIER_PATTERN.match(name)` with `_IDENTIFIER_PATTERN = r'[A-Za-z_][A-Za-z0-9_]*\Z'` (fix 84476b0): the greedy run
+    must reach the end of the string -/
 def identMatch : Str → Bool
+  | [] => false
+  | c :: r => isIdStart c && (r.dropWhile isIdCont).isEmpty
+
+/-- the pattern before fix 84476b0, `'[A-Za-z_][A-Za-z0-9_]*$'`: `$` also matches just before a newline that ends the
+    string (F34; only used for the regression witness) -/
+def identMatchPinned : Str → Bool
   | [] => false
   | c :: r => isIdStart c &&
     (match r.dropWhile isIdCont with
